@@ -5,6 +5,7 @@ import RbV.Model.Fenwick
 import RbV.Lemmas.BitEnc
 import RbV.Lemmas.SmallInts
 import RbV.Lemmas.Fenwick
+import RbV.Thm.GenSrcFenwick
 /-!
 # C18 — bit-packed containers behave exactly like plain vectors
 
@@ -163,5 +164,61 @@ example : get max 0 (runMax 9 [(8, 5), (0, 2), (4, 9)]) 4 = 9 := by
   rw [fenwick_max_correct 9 _ (by decide) 4 (by decide)]; decide
 
 end fenwick
+
+/-! ## Fenwick tree: function bodies translated from the source text (docs/notes/GEN.md, "Translated function bodies")
+
+`RbV/Gen/SrcFenwick.lean` is regenerated from `src/data_structures/bit_tree.rs` by `tools/rs2lean.py` on every
+`./check C18`; the theorems below are re-proved against the regenerated definitions (proofs: `RbV/Thm/GenSrcFenwick.lean`).
+`Rs.Res.ok v` = the translated function returns `v` without panicking (index out of bounds, checked `usize` arithmetic,
+`-isize::MIN`) and without running out of the fuel given to its `while` loop. -/
+section fenwick_source
+open RbV.Spec.Fenwick RbV.Model.Fenwick RbV.Lemmas.Fenwick
+
+/-- `(idx as isize & -(idx as isize)) as usize`, computed on 64-bit two's-complement bit patterns as the translation does,
+is the model's `lowbit` for every non-zero `idx` -/
+theorem fenwick_lowbit_is_and_neg (i : Nat) (h0 : 0 < i) (h : i < 2 ^ 64) : i &&& (2 ^ 64 - i) = lowbit i :=
+  GenSrcFenwick.and_neg_eq_lowbit 64 i h0 h
+
+/-- **`FenwickTree::get`, as written, is the mirror model's `get`** for every operation, every tree of at most 2^63 slots
+and every in-range index (the precondition under which the Rust code does not panic on `self.tree[idx + 1]`). -/
+theorem fenwick_get_source_eq_model {α : Type} (op : α → α → α) (dflt : α) (tree : List α) (idx : Nat)
+    (h : idx + 1 < tree.length) (hlen : tree.length ≤ 2 ^ 63) :
+    Gen.SrcFenwick.get op dflt tree idx = Rs.Res.ok (Model.Fenwick.get op dflt tree idx) :=
+  GenSrcFenwick.get_eq_model op dflt tree idx h hlen
+
+/-- **`FenwickTree::set`, as written, is the mirror model's `set`** (the new content of `self.tree`), for every operation,
+every tree of at most 2^63 slots and every index (an index beyond the tree changes nothing, as in the model). -/
+theorem fenwick_set_source_eq_model {α : Type} (op : α → α → α) (dflt : α) (tree : List α) (idx : Nat) (val : α)
+    (hidx : idx + 1 < 2 ^ 64) (hlen : tree.length ≤ 2 ^ 63) :
+    Gen.SrcFenwick.set op dflt tree idx val = Rs.Res.ok (Model.Fenwick.set op dflt tree idx val) :=
+  GenSrcFenwick.set_eq_model op dflt tree idx val hidx hlen
+
+/-- generated code = specification (`SumBitTree`): any history of in-range updates run through the translated `set`,
+starting from `FenwickTree::new(n)`, succeeds, and the translated `get(i)` on the result returns the prefix sum. -/
+theorem fenwick_source_sum_correct (n : Nat) (hn : n + 1 ≤ 2 ^ 63) (ups : List (Nat × Int)) (hups : ∀ u ∈ ups, u.1 < n)
+    (i : Nat) (hi : i < n) :
+    ∃ t, ups.foldlM (fun t u => Gen.SrcFenwick.set (· + ·) 0 t u.1 u.2) (new (0 : Int) n) = Rs.Res.ok t ∧
+      Gen.SrcFenwick.get (· + ·) 0 t i = Rs.Res.ok (prefixSum ups i) := by
+  refine ⟨runSum n ups, GenSrcFenwick.run_eq_model (· + ·) 0 n hn ups _ (by simp [new]) hups, ?_⟩
+  have hl : (runSum n ups).length = n + 1 := by
+    rw [runSum, GenSrcFenwick.run_length]; simp [new]
+  rw [GenSrcFenwick.get_eq_model (· + ·) 0 _ i (by omega) (by omega), fenwick_sum_correct n ups hups i hi]
+
+/-- generated code = specification (`MaxBitTree` over naturals) -/
+theorem fenwick_source_max_correct (n : Nat) (hn : n + 1 ≤ 2 ^ 63) (ups : List (Nat × Nat)) (hups : ∀ u ∈ ups, u.1 < n)
+    (i : Nat) (hi : i < n) :
+    ∃ t, ups.foldlM (fun t u => Gen.SrcFenwick.set max 0 t u.1 u.2) (new (0 : Nat) n) = Rs.Res.ok t ∧
+      Gen.SrcFenwick.get max 0 t i = Rs.Res.ok (prefixMax ups i) := by
+  refine ⟨runMax n ups, GenSrcFenwick.run_eq_model max 0 n hn ups _ (by simp [new]) hups, ?_⟩
+  have hl : (runMax n ups).length = n + 1 := by
+    rw [runMax, GenSrcFenwick.run_length]; simp [new]
+  rw [GenSrcFenwick.get_eq_model max 0 _ i (by omega) (by omega), fenwick_max_correct n ups hups i hi]
+
+example : Gen.SrcFenwick.get (· + ·) (0 : Int) [0, 5, 5, 10, 15, 0, 0, 0, 12] 3 = Rs.Res.ok 15 := by decide
+example : Gen.SrcFenwick.set (· + ·) (0 : Int) [0, 0, 0, 0, 0] 0 7 = Rs.Res.ok [0, 7, 7, 0, 7] := by decide
+-- out of range: the Rust code panics on `self.tree[idx]`, so does the translation
+example : Gen.SrcFenwick.get (· + ·) (0 : Int) [0, 1, 2] 2 = Rs.Res.panic := by decide
+
+end fenwick_source
 
 end RbV.Thm.C18
